@@ -1822,26 +1822,34 @@ impl<K: AsRef<Key>> ServerError<K> {
         let mut builder = builder.additional();
         match self.0 {
             ServerErrorInner::Unsigned { error } => {
-                let tsig = {
-                    MessageTsig::from_message(msg)
-                        .expect("missing or malformed TSIG record")
-                };
-                builder.push((
-                    tsig.record.owner(),
-                    tsig.record.class(),
-                    tsig.record.ttl(),
-                    // The TSIG record data can never ever be too long.
-                    Tsig::new(
-                        tsig.record.data().algorithm(),
-                        tsig.record.data().time_signed(),
-                        tsig.record.data().fudge(),
-                        b"",
-                        msg.header().id(),
-                        error,
-                        b"",
-                    )
-                    .expect("long record data"),
-                ))?;
+                match MessageTsig::from_message(msg) {
+                    Ok(tsig) => {
+                        builder.push((
+                            tsig.record.owner(),
+                            tsig.record.class(),
+                            tsig.record.ttl(),
+                            // The TSIG record data can never ever be too
+                            // long.
+                            Tsig::new(
+                                tsig.record.data().algorithm(),
+                                tsig.record.data().time_signed(),
+                                tsig.record.data().fudge(),
+                                b"",
+                                msg.header().id(),
+                                error,
+                                b"",
+                            )
+                            .expect("long record data"),
+                        ))?;
+                    }
+                    Err(_) => {
+                        // The request had no single well-formed TSIG record
+                        // we could answer to (it was misplaced, repeated or
+                        // broken). RFC 8945, section 5.2 asks for a plain
+                        // FORMERR response in this case.
+                        builder.header_mut().set_rcode(Rcode::FORMERR);
+                    }
+                }
             }
             ServerErrorInner::Signed { context, variables } => {
                 let (mac, key) = context.final_answer(
